@@ -82,6 +82,7 @@ switches! {
     enum_str_payload,       // str payload in enum variants (pattern-bound strs have no type in lowering)
     aug_compound_rhs,       // `x -= a + b`: compound right-hand side of a compound assignment
     setindex_self_ref,      // `xs[xs[0]] = v`: index expression reading the list being written
+    field_list_neg_index,   // reading `obj.field[-1]`: negative index on a list reached through a field
 }
 
 impl Default for Switches {
